@@ -119,35 +119,38 @@ def CEv.benign (p : Tag) : CEv → Prop
   | .iterTerm tag => tag ≠ p
   | .term st => st = .completed
 
-theorem keepsReading_of_nonempty (t : Bool) (n : Nat) (h : 0 < n) : Gen.loopKeepsReading t n = true := by
+theorem keepsReading_of_nonempty (t : Bool) (n : Nat) (h : 0 < n) : Gen.loopKeepsReading t false n = true := by
   simp [Gen.loopKeepsReading]; omega
 
-theorem cstep_keeps (s : CSt) (e : CEv) (p : Tag) (hp : p ∈ s.checklist) (hr : s.reading = true) (he : e.benign p) :
-    p ∈ (cstep s e).checklist ∧ (cstep s e).reading = true := by
-  have key : ∀ s1 : CSt, p ∈ s1.checklist →
-      p ∈ ({ s1 with reading := Gen.loopKeepsReading s1.terminated s1.checklist.length } : CSt).checklist ∧
-      ({ s1 with reading := Gen.loopKeepsReading s1.terminated s1.checklist.length } : CSt).reading = true := by
-    intro s1 h1
-    exact ⟨h1, keepsReading_of_nonempty _ _ (List.length_pos_of_mem h1)⟩
-  unfold cstep
-  simp only [hr, Bool.not_true, Bool.false_eq_true, if_false]
-  apply key
+theorem cpre_keeps (s : CSt) (e : CEv) (p : Tag) (hp : p ∈ s.checklist) (hf : s.failed = false) (he : e.benign p) :
+    p ∈ (cpre s e).checklist ∧ (cpre s e).failed = false := by
   cases e with
   | data tag =>
-    simp only
+    simp only [cpre]
     split
     · split
-      · exact hp
-      · exact List.mem_cons_of_mem _ hp
-    · exact hp
+      · exact ⟨hp, hf⟩
+      · exact ⟨List.mem_cons_of_mem _ hp, hf⟩
+    · exact ⟨hp, hf⟩
   | iterTerm tag =>
     have : tag ≠ p := he
-    simp only [List.mem_filter, hp, true_and, decide_eq_true_eq]
+    refine ⟨?_, hf⟩
+    simp only [cpre, List.mem_filter, hp, true_and, decide_eq_true_eq]
     exact fun e => this e.symm
   | term st =>
     have : st = .completed := he
     subst this
-    simpa [Gen.loopChecklistClears] using hp
+    simp [cpre, Gen.loopChecklistClears, Gen.loopFails, hp, hf]
+
+theorem cstep_keeps (s : CSt) (e : CEv) (p : Tag) (hp : p ∈ s.checklist) (hr : s.reading = true) (hf : s.failed = false)
+    (he : e.benign p) :
+    p ∈ (cstep s e).checklist ∧ (cstep s e).reading = true ∧ (cstep s e).failed = false := by
+  obtain ⟨h1, h2⟩ := cpre_keeps s e p hp hf he
+  unfold cstep
+  simp only [hr, Bool.not_true, Bool.false_eq_true, if_false]
+  refine ⟨h1, ?_, h2⟩
+  simp only [h2]
+  exact keepsReading_of_nonempty _ _ (List.length_pos_of_mem h1)
 
 end SFV.Loop
 
